@@ -12,7 +12,7 @@ pub static NAMES: Scenario = Scenario {
     id: "C14",
     name: "c14-network-names",
     run,
-    quick_runs: 6000,
+    quick_runs: 12_000,
     thorough_runs: 200_000,
     rule: "one run = two real Networks with PRNG (primary, optional alternate) network names from a small alphabet plus PRNG DNS labels, dialing each other in both directions, an adversarial dialer choosing SNI and certificate name independently against each of them, and an adversarial listener recording the SNI honest dialers offer; fault-free and lossy configurations; distinct = distinct order signature (name relation, direction, outcome); non-trivial = names differ somewhere or a fault fired",
     real: super::REAL_NET,
